@@ -178,7 +178,10 @@ def prove(ex, name, formula, detail='', env=None):
             v, model, backend = 'sat', m2, 'z3 (model of the quantifier-free part of the path condition)'
     verdict = {'unsat': 'proved', 'sat': 'refuted'}.get(v, 'unknown')
     known = None
-    if v == 'sat':
+    if v in ('sat', 'unknown'):
+        # (`unknown` on an obligation that a recorded finding covers for every
+        # input -- witness "True" -- is that finding, not a new alarm and not a
+        # reason to search again: the solver merely ran out of time on it)
         full = ex.root.qualname + '/' + name
         cands = list(ex.world.findings.get(full, []))
         if getattr(ex.world, 'variant', None):
@@ -191,6 +194,8 @@ def prove(ex, name, formula, detail='', env=None):
                 raise ContractError('finding %s: witness clause: %s' % (fid, e))
             if z3.is_true(z3.simplify(wit)):
                 v2, model2 = 'unsat', None        # the recorded finding covers every counterexample of this obligation
+            elif v == 'unknown':
+                continue
             else:
                 v2, model2, _ = smt.check(P.pc + [z3.Not(formula), z3.Not(wit)], want_model=True)
             if v2 == 'unsat':
